@@ -26,6 +26,10 @@
 
 #include <string.h>
 
+#ifdef ASL_VERIF
+#    include "verif_hooks.h"
+#endif
+
 #define CodeBufferSize 512
 
 static Word    LenSoFar;
@@ -357,6 +361,18 @@ void WriteBytes(void) {
     if ((TurnWords != 0) != (HostBigEndian != 0)) {
         DreheCodes();
     }
+#ifdef ASL_VERIF
+    if (AV_ON(AV_EMIT)) {
+        fprintf(asl_verif_trace,
+                "{\"e\":\"emit\",\"pass\":%d,\"line\":%ld,\"seg\":%d,\"gran\":%d,\"cpu\":%d,"
+                "\"addr\":%llu,\"ph\":%lld,\"n\":%u,",
+                (int)PassNo, (long)CurrLine, (int)ActPC, (int)Granularity(), (int)HeaderID,
+                (unsigned long long)ProgCounter(), (long long)Phases[ActPC],
+                (unsigned)ErgLen);
+        asl_verif_hex("bytes", BAsmCode, ErgLen);
+        fprintf(asl_verif_trace, "}\n");
+    }
+#endif
     if (((LongInt)LenSoFar) + ((LongInt)ErgLen) > 0xffff) {
         NewRecord(ProgCounter());
     }
@@ -405,6 +421,15 @@ void RetractWords(Word Cnt) {
     LenSoFar -= ErgLen;
 
     Retracted = True;
+#ifdef ASL_VERIF
+    if (AV_ON(AV_EMIT)) {
+        fprintf(asl_verif_trace,
+                "{\"e\":\"retract\",\"pass\":%d,\"line\":%ld,\"seg\":%d,\"gran\":%d,"
+                "\"addr\":%llu,\"n\":%u}\n",
+                (int)PassNo, (long)CurrLine, (int)ActPC, (int)Granularity(),
+                (unsigned long long)ProgCounter(), (unsigned)ErgLen);
+    }
+#endif
 }
 
 /*!------------------------------------------------------------------------
